@@ -260,12 +260,17 @@ fn run(req: &str) -> Option<String> {
         return None;
     }
     // `S` single-thread | `M` multi-thread | `M<seed>` multi-thread with seeded schedule perturbation
+    // `MG`: multi-thread, burst: every event is parsed first and then pushed back-to-back while the consumer's first call is
+    // held at a gate (opened when the producer is done, or after 500 ms so that a producer that legitimately blocks on
+    // back-pressure cannot deadlock): the worker lags many firings behind, none of which may be lost or reordered
+    let gate_mode = toks[1] == "MG";
     let (multi, jitter) = match toks[1] {
         "S" => (false, None),
-        "M" => (true, None),
+        "M" | "MG" => (true, None),
         m if m.starts_with('M') => (true, Some(Jitter::new(m[1..].parse().ok()?))),
         _ => return None,
     };
+    let gate: Arc<(Mutex<bool>, std::sync::Condvar)> = Arc::new((Mutex::new(!gate_mode), std::sync::Condvar::new()));
     let op = match toks[2] {
         "R" => "RSTREAM",
         "I" => "ISTREAM",
@@ -287,9 +292,17 @@ fn run(req: &str) -> Option<String> {
     let log: Arc<Mutex<Vec<Log>>> = Arc::new(Mutex::new(Vec::new()));
     let l2 = Arc::clone(&log);
     let j2 = jitter.clone();
+    let g2 = Arc::clone(&gate);
     let consumer = ResultConsumer {
         function: Arc::new(move |r: Vec<(String, String)>| {
             jit(&j2);
+            {
+                let (m, cv) = &*g2;
+                let open = m.lock().unwrap();
+                if !*open {
+                    let _ = cv.wait_timeout_while(open, std::time::Duration::from_millis(500), |o| !*o);
+                }
+            }
             l2.lock().unwrap().push(Log::Row(r));
         }),
     };
@@ -315,11 +328,21 @@ fn run(req: &str) -> Option<String> {
         Err(e) => return Some(format!("build-error:{}", e.replace(' ', "_"))),
     };
     let (mut probe, got) = probe_window(width, slide);
-    for ev in &evs {
+    let mut parsed: Vec<Vec<Triple>> = Vec::new();
+    if gate_mode {
+        for ev in &evs {
+            parsed.push(match ev {
+                Ev::Add(_, s, p, o) => engine.parse_data(&nt_line(*s, *p, *o)),
+                Ev::Stop => Vec::new(),
+            });
+        }
+    }
+    for (k, ev) in evs.iter().enumerate() {
         match ev {
             Ev::Add(ts, s, p, o) => {
                 jit(&jitter);
-                for t in engine.parse_data(&nt_line(*s, *p, *o)) {
+                let ts_ = if gate_mode { std::mem::take(&mut parsed[k]) } else { engine.parse_data(&nt_line(*s, *p, *o)) };
+                for t in ts_ {
                     engine.add(t, *ts);
                 }
                 probe.add_to_window((*s, *p, *o), *ts);
@@ -330,6 +353,11 @@ fn run(req: &str) -> Option<String> {
                 probe.stop();
             }
         }
+    }
+    {
+        let (m, cv) = &*gate;
+        *m.lock().unwrap() = true;
+        cv.notify_all();
     }
     // Dropping the engine drops the windows' senders; every worker thread then leaves its loop and drops its clone
     // of the consumer closure (which holds `log`).  When we hold the only reference, all threads have finished.
@@ -505,12 +533,14 @@ impl C10 {
         if disorder {
             stats.hit("malformed_out_of_order");
         }
+        let burst = multi && rng.chance(1, 12);
         let maxn = if tier == Tier::Quick { 14 } else { 40 };
-        let n = rng.range(1, maxn);
+        let n = if burst { rng.range(40, 90) } else { rng.range(1, maxn) };
+        let (width, slide) = if burst { (rng.range(1, 3), 1) } else { (width, slide) };
         let evs = gen_events(rng, n, width, disorder, stats);
         let mut toks: Vec<String> = vec![
             "rsp".into(),
-            if multi { if rng.chance(2, 3) { stats.hit("perturbed_schedule"); format!("M{}", rng.range(1, 999_999)) } else { "M".into() } } else { "S".into() },
+            if burst { stats.hit("burst_with_gated_consumer"); "MG".into() } else if multi { if rng.chance(2, 3) { stats.hit("perturbed_schedule"); format!("M{}", rng.range(1, 999_999)) } else { "M".into() } } else { "S".into() },
             op.into(),
             width.to_string(),
             slide.to_string(),
